@@ -40,6 +40,9 @@ def run(ctx):
     from . import c02, c14
     ctx.guarded("R01.7", "lines", lambda: c02.lines(_Remap(ctx, "R01.7")))
     ctx.guarded("R01.7", "find", lambda: c14.find_shape(_Remap(ctx, "R01.7")))
+    ctx.rule("R01.9", "the too-long-line test does not depend on where a read ended inside the line: start == 0 && end == BUFFER_SIZE (= C04 R04.3)")
+    from . import c04
+    ctx.guarded("R01.9", "line-limit", lambda: c04.line_limit(_Remap(ctx, "R01.9")))
     ctx.rule("R01.8", "a completed request is queued at once (RequestReady arm pushes onto parsed_requests), so requests preceding an error are still delivered")
     ctx.guarded("R01.8", "queue-on-completion", lambda: queue_on_completion(ctx, "R01.8"))
 
@@ -81,7 +84,7 @@ def empty_read(ctx):
         first_mut = conn.self_effects(ctx, lf)
         ctx.ob("R01.1", "loop|read-first|bb%s" % lf.trace[-2], first_mut and first_mut[0][1] == conn.READ_BYTES, "the first thing the parser loop does to the connection is read_bytes", fl.loc(lf.bb))
     if loopfn != conn.TRY_READ:
-        ft, lt = leaves(ctx, conn.TRY_READ)
+        ft, lt = leaves(ctx, conn.TRY_READ, lower=True)   # closures given to map_err / or_else are code of try_read
         for lf in lt:
             calls_loop = [e for e in lf.events if e[0] == "call" and e[3] == loopfn]
             eff = conn.self_effects(ctx, lf, allow=(last_seg(loopfn),))
@@ -90,6 +93,17 @@ def empty_read(ctx):
             can_pe = refine_can_be_parse_error(ctx.facts, Shapes(ctx.facts), ft, lf)
             if not can_pe:
                 ctx.ob("R01.1", "try_read|non-parse-error|no-extra-effect", not eff and len(calls_loop) == 1, "unless a ParseError is returned, try_read adds no effect of its own (effects: %s)" % eff, ft.loc(lf.bb))
+            elif eff:
+                # an effect of try_read's own (the parser reset) needs the error to be *known* to be a ParseError on this path
+                pe = [d for d, nm in ctx.facts.variant_discr("common::ConnectionError").items() if nm == "ParseError"][0]
+                known_pe = False
+                for (t, c, _b) in lf.conds:
+                    if t[0] != "discr":
+                        continue
+                    x = look(t[1])
+                    if x[0] == "field" and x[1][0] == "downcast" and x[1][2] == "Err" and calls_loop and norm(look(x[1][1])) == norm(calls_loop[0][4]) and c == ("eq", pe):
+                        known_pe = True
+                ctx.ob("R01.1", "try_read|effect-only-on-parse-error", known_pe, "try_read touches the connection itself (%s) only on a path where the error was tested to be a ParseError: a would-block read must leave the carried-over bytes alone" % [e[1].split("::")[-1] for e in eff], ft.loc(lf.bb))
     ctx.ob("R01.1", "floor", n >= 3, "%d failed-receive paths inspected (floor 3)" % n)
 
 
